@@ -409,12 +409,12 @@ class SymSeq:
         return self._at(lift(i))
 
     def forall(self):
-        k = z3.FreshInt("q")
+        k = z3.Int("q!b")
         body = self._at(k)
         return SV(z3.ForAll([k], z3.Implies(z3.And(k >= 0, k < self.length), lift(body))))
 
     def exists(self):
-        k = z3.FreshInt("q")
+        k = z3.Int("q!b")
         body = self._at(k)
         return SV(z3.Exists([k], z3.And(k >= 0, k < self.length, lift(body))))
 
@@ -427,3 +427,101 @@ class SymSeq:
         from .interp import Untranslatable
 
         raise Untranslatable("iteration over a symbolic-length sequence outside a cut loop")
+
+
+# --------------------------------------------------------------------------------------
+class SymList:
+    """A Python list of reals with symbolic length: (len: Int, arr: Array Int -> Real).  Mutable (append)."""
+
+    def __init__(self, n=None, arr=None, name="lst"):
+        self.n = z3.IntVal(0) if n is None else n
+        self.arr = z3.K(I, z3.RealVal(0)) if arr is None else arr
+        self.name = name
+
+    @staticmethod
+    def of(v):
+        if isinstance(v, SymList):
+            return v
+        if isinstance(v, list):
+            s = SymList()
+            for x in v:
+                s.append(x)
+            return s
+        raise TypeError(type(v))
+
+    def append(self, v):
+        self.arr = z3.Store(self.arr, self.n, to_real(lift(v)))
+        self.n = self.n + 1
+
+    def sym_len(self):
+        return SV(self.n)
+
+    def _norm(self, b, default):
+        """Python slice-bound normalisation for a list of length n (step 1)."""
+        if b is None:
+            return default
+        e = lift(b)
+        e = z3.If(e < 0, e + self.n, e)
+        return z3.If(e < 0, z3.IntVal(0), z3.If(e > self.n, self.n, e))
+
+    def __getitem__(self, i):
+        if isinstance(i, slice):
+            if i.step not in (None, 1):
+                from .interp import Untranslatable
+
+                raise Untranslatable("extended slice of a symbolic list")
+            lo, hi = self._norm(i.start, z3.IntVal(0)), self._norm(i.stop, self.n)
+            q = z3.Int("q!b")
+            return SymList(z3.If(hi > lo, hi - lo, z3.IntVal(0)), z3.Lambda([q], z3.Select(self.arr, q + lo)))
+        e = lift(i)
+        if (isinstance(i, int) and i < 0):
+            e = self.n + i
+        elif isinstance(i, SV):
+            e = z3.If(e < 0, e + self.n, e)
+        if cur() is not None:
+            cur().side_condition("index", z3.And(e >= 0, e < self.n), "list index")
+        return SV(z3.Select(self.arr, e))
+
+    def sym_min(self):
+        """Python min(list): contract  result is an element and <= every element (ValueError if empty)."""
+        it = cur()
+        if not it.truth(SV(self.n > 0)):
+            from .interp import PyRaise
+
+            raise PyRaise("ValueError", "min() of empty sequence")
+        v, j, q = it.fresh("min", "real"), it.fresh("jmin", "int"), z3.Int("q!b")
+        it.assume(z3.And(j >= 0, j < self.n, v == z3.Select(self.arr, j),
+                         z3.ForAll([q], z3.Implies(z3.And(q >= 0, q < self.n), v <= z3.Select(self.arr, q)))))
+        return SV(v)
+
+    def sum(self, start=0):
+        it = cur()
+        return SV(it.fresh("listsum", "real"))
+
+    def argmin(self):
+        """jnp.argmin contract (T3): the FIRST index of the minimum."""
+        it = cur()
+        j, q = it.fresh("argmin", "int"), z3.Int("q!b")
+        it.side_condition("argmin_nonempty", self.n > 0, "argmin of an empty array")
+        it.assume(z3.And(j >= 0, j < self.n,
+                         z3.ForAll([q], z3.Implies(z3.And(q >= 0, q < self.n), z3.Select(self.arr, j) <= z3.Select(self.arr, q))),
+                         z3.ForAll([q], z3.Implies(z3.And(q >= 0, q < j), z3.Select(self.arr, q) > z3.Select(self.arr, j)))))
+        return SV(j)
+
+
+class Opaque:
+    """An opaque object of a dependency (optimizer, opt_state, static pytree ...): no property is assumed."""
+
+    def __init__(self, name):
+        object.__setattr__(self, "_name", name)
+
+    def __getattr__(self, a):
+        if a.startswith("__"):
+            raise AttributeError(a)
+        return Opaque(f"{object.__getattribute__(self, '_name')}.{a}")
+
+    def __call__(self, *a, **k):
+        return Opaque(f"{object.__getattribute__(self, '_name')}()")
+
+    def __repr__(self):
+        return f"<opaque {object.__getattribute__(self, '_name')}>"
